@@ -551,7 +551,7 @@ var plCorpus = func() []plCase {
 	for _, p := range []string{
 		`abc`, `a|b|c|def|g|h`, `apple|(?:orange|pear)|grape`, `abc|ade`, `\w12|\d34|\d56|\w78|\w90`, `(?>hi|there|hello)`, `(?>(?>(?>a*)))`, `(?>(abc*)*)`,
 		`a*a*a*`, `a+ab`, `(?:abc)(?:def)`, `(?:a{2,4}){1,2}`, `(?:(?>a+)){2}`, `(?:a*)+`, `(?:a+)*`, `(?:a{2,})?`, `(?:a{100,105}){3}`, `(?:a{2,}){2147483647}`, `(?:a+?)+?`, `(?:a+?)+`,
-		`(?:(?:ab)*)+`, `(?:[ab])*`, `(?:[^a])+?`, `(?:a){2,3}`, `(?:){3}`, `()*`, `(?=)`, `(?!)`, `(?<=)a`, `a(?!)|b`, `(?(1)a)(b)`, `(?(?=a)b)`, `(?(?=a)b|c)`, `(?(?<=a)b|c)`, `(?(a+)b|c)`,
+		`(?:(?:ab)*)+`, `(?:(?:a{2,})*)+`, `(?:(?:\d{3,})*){2}`, `x((?:(?:a{2,})*)+)y`, `(?:(?:(?:a{2})+)?){2,}`, `(?:(?:a{2,}?)*?)+?`, `(?:(?:[ab]{2,})*){1,3}`, `(?:[ab])*`, `(?:[^a])+?`, `(?:a){2,3}`, `(?:){3}`, `()*`, `(?=)`, `(?!)`, `(?<=)a`, `a(?!)|b`, `(?(1)a)(b)`, `(?(?=a)b)`, `(?(?=a)b|c)`, `(?(?<=a)b|c)`, `(?(a+)b|c)`,
 		`(?i)a1|b`, `(?i)ab*`, `[a]`, `[^a]+`, `a*b`, `a*?b`, `a*b*c*`, `\w+\b`, `\w+@dot\.net`, `(?:ab*)*c`, `[xyz](?:abc|def)`, `abc*|def*`, `(?:abc*)*`, `(abc*?)+?`,
 		`a+(?s).`, `a*(?m)$`, `(a*)+b`, `(?<=a*b)c`, `x(?<=(?:a*ba){2})c`, `a*(?:b|c)`, `a*(?(?=x)y|z)`, `(?>a+?)b`, `(?>a{3}?)`, `(?>|a|b)`, `(?>a||b)`, `a||c`, `x||-||b`,
 		`[ab][bc]x|[ab](?:b|c)y`, `a{2}?$b*|aab`, `\d+ca*|b|`, `.*x`, `(?>.*?)x`, `(?>.*)x`, `(?:.*)?x`, `^.*$`, `(a|ab)(c|bcd)(d*)`, `\p{L}+\P{L}`, `[\w-[a]]+b`, `\s+\d`, `\s*\w`,
